@@ -1,7 +1,8 @@
 ------------------------------- MODULE ByteOrderMC -------------------------------
 (* Exhaustive small-scope model of byte-order conversion chains.                    *)
-(*  - ChooseKinds / ChooseSpell enumerate every abstract array of the bounded space  *)
-(*    (plain or structured, every sequence of field kinds, every order spelling);    *)
+(*  - ChooseKinds / ChooseSpell / ChooseLayout enumerate every abstract array of the *)
+(*    bounded space (plain or structured, every sequence of field kinds incl. nested *)
+(*    records, every order spelling, every memory layout);                           *)
 (*  - ToNative / ToBig / ToLittle / Swap (x inplace x keep_dtype) and                *)
 (*    RecfileNativeInplace extend a chain: each conversion is applied to the result  *)
 (*    of the previous one, so buffers may or may not be shared (aliasing);           *)
@@ -12,7 +13,14 @@ EXTENDS ByteOrder, Json
 
 CONSTANTS MinFields, MaxFields,   \* structured arrays of MinFields..MaxFields fields
           WithPlain,              \* TRUE: plain arrays too (when MinFields = 1)
+          Kinds,                  \* field kinds used (subset of BOKinds)
+          Need,                   \* kinds that must occur among the fields (subset of Kinds; {} = no restriction)
           Spells,                 \* order characters the initial dtype is spelled with
+          Layouts,                \* memory layouts of the initial array (subset of BOLayouts)
+          InplaceFirst,           \* TRUE: only chains whose steps before the last are in place (the
+                                  \*       current array stays the initial window; thins deep runs)
+          NestedDetect,           \* mechanism variants, see ByteOrder.tla
+          RetypeAlways,
           MaxDepth,               \* chain length
           FixedDetect,            \* mechanism variant, see ByteOrder.tla
           DoExport
@@ -20,18 +28,18 @@ CONSTANTS MinFields, MaxFields,   \* structured arrays of MinFields..MaxFields f
 VARIABLES phase, init, ops, snaps, arrs, bufs, cur
 vars == <<phase, init, ops, snaps, arrs, bufs, cur>>
 
-\* arrs : Seq([decl : Seq(order), buf : index into bufs]) - every array object created so far
+\* arrs : Seq([decl : Seq(order), buf : index into bufs, lay : layout]) - every array object created so far
 \* bufs : Seq(Seq(order))  - physical order of each field in each buffer
 \* cur  : the current array (argument of the next conversion)
 \* snaps: the observable state after each step (snaps[1] = initial), ops: the steps taken
 
-NoInit == [plain |-> FALSE, kinds |-> <<>>, spell |-> "="]
+NoInit == [plain |-> FALSE, kinds |-> <<>>, spell |-> "=", layout |-> "contig"]
 
 Init == /\ phase = "start" /\ init = NoInit /\ ops = <<>> /\ snaps = <<>>
         /\ arrs = <<>> /\ bufs = <<>> /\ cur = 0
 
 SnapOf(A, B, c) ==
-    [res |-> c, err |-> "none",
+    [res |-> c, err |-> "none", rest |-> "intact",     \* no conversion ever writes outside its array
      arrs |-> [j \in 1..Len(A) |->
                  [decl |-> A[j].decl, phys |-> B[A[j].buf], sig |-> "s", shp |-> "h",
                   grp |-> VSetMin({i \in 1..Len(A) : A[i].buf = A[j].buf}),
@@ -39,28 +47,35 @@ SnapOf(A, B, c) ==
 
 ChooseKinds ==
     /\ phase = "start"
-    /\ \E n \in MinFields..MaxFields : \E ks \in [1..n -> BOKinds] :
-       \E pl \in (IF n = 1 /\ WithPlain THEN BOOLEAN ELSE {FALSE}) :
-          init' = [plain |-> pl, kinds |-> ks, spell |-> "="]
+    /\ \E n \in MinFields..MaxFields : \E ks \in [1..n -> Kinds] :
+       \E pl \in (IF n = 1 /\ WithPlain /\ ks[1] # "N" THEN BOOLEAN ELSE {FALSE}) :
+          /\ Need \subseteq {ks[i] : i \in 1..n}
+          /\ init' = [plain |-> pl, kinds |-> ks, spell |-> "=", layout |-> "contig"]
     /\ phase' = "kinds" /\ UNCHANGED <<ops, snaps, arrs, bufs, cur>>
 
 ChooseSpell ==
     /\ phase = "kinds"
-    /\ \E sp \in Spells :
-         LET d == [i \in DOMAIN init.kinds |-> BODeclOf(init.kinds[i], sp)]
-             A == <<[decl |-> d, buf |-> 1]>>
+    /\ \E sp \in Spells : init' = [init EXCEPT !.spell = sp]
+    /\ phase' = "spell" /\ UNCHANGED <<ops, snaps, arrs, bufs, cur>>
+
+ChooseLayout ==
+    /\ phase = "spell"
+    /\ \E l \in Layouts :
+         LET d == [i \in DOMAIN init.kinds |-> BODeclOf(init.kinds[i], init.spell)]
+             A == <<[decl |-> d, buf |-> 1, lay |-> l]>>
              B == <<d>>                              \* the initial array holds its logical values
-         IN /\ init' = [init EXCEPT !.spell = sp]
+         IN /\ init' = [init EXCEPT !.layout = l]
             /\ arrs' = A /\ bufs' = B /\ cur' = 1 /\ snaps' = <<SnapOf(A, B, 1)>>
     /\ phase' = "run" /\ UNCHANGED ops
 
 Conv(fn, ip, keep) ==
     /\ phase = "run" /\ Len(ops) < MaxDepth
+    /\ (InplaceFirst /\ Len(ops) < MaxDepth - 1) => ip
     /\ LET a == arrs[cur]
            v == [decl |-> a.decl, phys |-> bufs[a.buf]]
            w == BOConvert(init.kinds, v, fn, keep)
-           A == IF ip THEN [arrs EXCEPT ![cur] = [decl |-> w.decl, buf |-> a.buf]]
-                      ELSE Append(arrs, [decl |-> w.decl, buf |-> Len(bufs) + 1])
+           A == IF ip THEN [arrs EXCEPT ![cur] = [decl |-> w.decl, buf |-> a.buf, lay |-> a.lay]]
+                      ELSE Append(arrs, [decl |-> w.decl, buf |-> Len(bufs) + 1, lay |-> "contig"])   \* a copy owns its buffer
            B == IF ip THEN [bufs EXCEPT ![a.buf] = w.phys] ELSE Append(bufs, w.phys)
            c == IF ip THEN cur ELSE Len(arrs) + 1
        IN /\ arrs' = A /\ bufs' = B /\ cur' = c
@@ -74,7 +89,7 @@ ToLittle  == phase = "run" /\ \E ip, k \in BOOLEAN : Conv("little", ip, k)
 Swap      == phase = "run" /\ \E ip, k \in BOOLEAN : Conv("swap", ip, k)
 RecfileNativeInplace == phase = "run" /\ Conv("rnative", TRUE, FALSE)
 
-Next == ChooseKinds \/ ChooseSpell \/ ToNative \/ ToBig \/ ToLittle \/ Swap \/ RecfileNativeInplace
+Next == ChooseKinds \/ ChooseSpell \/ ChooseLayout \/ ToNative \/ ToBig \/ ToLittle \/ Swap \/ RecfileNativeInplace
 Spec == Init /\ [][Next]_vars
 
 \* ---- theorems about the specification, checked on every behaviour ---------------------
@@ -86,7 +101,12 @@ SpecAccepted == N >= 1 =>
     /\ BOStepFailing(init.kinds, snaps[N], ops[N], snaps[N + 1]) = {}
     /\ N >= 2 => BOPairFailing(init.kinds, snaps[N - 1], ops[N - 1], snaps[N], ops[N], snaps[N + 1]) = {}
 
-InitAccepted == phase = "run" => BOInitFailing(init.kinds, init.spell, snaps[1]) = {}
+\* flags numpy shows for a layout (any witness will do: the acceptor must admit the layout's own flags)
+LayFlags(l, plain) == [cc |-> l \in {"contig", "slice", "zerod"} \/ (l = "recview" /\ ~plain), fc |-> l \in {"fortran", "zerod"},
+                       owns |-> l \in {"contig", "fortran"}, neg |-> l = "reversed",
+                       nd |-> IF l = "zerod" THEN 0 ELSE IF l = "fortran" THEN 2 ELSE 1]
+InitAccepted == phase = "run" =>
+    BOInitFailing(init.kinds, init.spell, init.layout, init.plain, ("lay" :> LayFlags(init.layout, init.plain)) @@ snaps[1]) = {}
 
 \* values: with the dtype updated every element keeps its (possibly already wrong) value;
 \* an array that held its logical values keeps them through any chain of such steps
@@ -116,12 +136,20 @@ UniformInv == phase = "run" => \A j \in DOMAIN snaps[N + 1].arrs : BOUniform(ini
 
 UntouchedThm == phase = "run" =>
     \A j \in DOMAIN snaps[N + 1].arrs : \A i \in DOMAIN init.kinds :
-        init.kinds[i] # "M" => snaps[N + 1].arrs[j].phys[i] = "|" /\ snaps[N + 1].arrs[j].decl[i] = "|"
+        ~BOIsMulti(init.kinds, i) => snaps[N + 1].arrs[j].phys[i] = "|" /\ snaps[N + 1].arrs[j].decl[i] = "|"
 
-\* the code's swap decision (order detection from one decisive field) refines the property
+\* the frame: nothing outside the arrays is ever written
+RestThm == phase = "run" => \A k \in 1..(N + 1) : snaps[k].rest = "intact"
+
+\* the code's mechanism (order detection from one decisive field, ndarray.byteswap, dtype assignment)
+\* refines the property: same result, same object identity, same dtype left on the argument
 MechRefines == N >= 1 =>
-    LET m == BOMechConvert(init.kinds, Cur(N), ops[N].fn, ops[N].keep, FixedDetect)
-    IN m.decl = Cur(N + 1).decl /\ m.phys = Cur(N + 1).phys
+    LET pre == snaps[N]
+        lay == arrs[pre.res].lay          \* layouts never change once an object exists
+        m == BOMechStep(init.kinds, BOLayContiguous(lay, init.plain), Cur(N), ops[N], FixedDetect, NestedDetect, RetypeAlways)
+    IN /\ m.decl = Cur(N + 1).decl /\ m.phys = Cur(N + 1).phys
+       /\ m.same = (snaps[N + 1].res = pre.res)
+       /\ m.argdecl = snaps[N + 1].arrs[pre.res].decl
 
 \* ---- export ------------------------------------------------------------------------------
 Export == (DoExport /\ phase = "run" /\ N = MaxDepth) =>
